@@ -317,6 +317,10 @@ class Seq(Shape):
             return SList([V.concrete_card(rng.randrange(52)) for _ in range(n)])
         if isinstance(self.elem, RecordElem):
             return SList([self.elem.sample(rng) for _ in range(n)])
+        if type(self.elem).__name__ == 'LineElem':
+            pool = [' \n', '\n', '\t\r\n', '% PBN 2.1\n', '% note\n', '[Event "x"]\n',
+                    '[Board "7"]\n', 'S A K 3\n', '[Deal "N:- - - -"]\r\n']
+            return SList([rng.choice(pool) for _ in range(rng.randint(0, 9))])
         return SList([rng.randint(-5, 5) for _ in range(n)])
 
     def fresh(self, ctx, name):
@@ -431,6 +435,28 @@ class Obj(Shape):
                 s.havoc(ctx, cur, f'{name}.{k}')
             else:
                 obj.fields[k] = s.fresh(ctx, f'{name}.{k}')
+
+
+class OpaqueVal(Shape):
+    """A value about which nothing is known except its identity (e.g. a parsed game)."""
+
+    class Val(V.Sym):
+        __slots__ = ('name',)
+
+        def __init__(self, name):
+            self.name = name
+
+        def __repr__(self):
+            return f'<{self.name}>'
+
+    def __init__(self, kind='value'):
+        self.kind = kind
+
+    def sample(self, rng):
+        return {'opaque': rng.random()}
+
+    def fresh(self, ctx, name):
+        return OpaqueVal.Val(ctx.fresh_name(self.kind))
 
 
 class Text(Shape):
@@ -593,6 +619,11 @@ class FnContract:
                         if k.startswith('ensures_')]
         self.exc_ensures = [(k[len('excensures_'):], _plain(v)) for k, v in d.items()
                             if k.startswith('excensures_')]
+        # native_ensures_<name> = (obligation name it replays, predicate): checked only when the real
+        # function is run natively (replay / bounded stand-in); the symbolic counterpart is a loop
+        # body_ensures, which cannot be evaluated on a concrete run
+        self.native_ensures = [(k[len('native_ensures_'):], v[0], _plain(v[1])) for k, v in d.items()
+                               if k.startswith('native_ensures_')]
         self.raises = {}
         for exc, kind in d.get('raises', {}).items():
             cfn = d.get('raises_' + exc.__name__)
